@@ -120,7 +120,7 @@ inline EdgeList disjoint_union(const EdgeList &a, const EdgeList &b) {
     return g;
 }
 
-// named family by spec string: grid:a:b torus:a:b cube:d K:n Kb:a:b wheel:k prism:k petersen cycle:k brick:a:b subgrid:a:b subcube:d
+// named family by spec string: grid:a:b torus:a:b cube:d K:n Kp:n:p pK:n:p Kb:a:b wheel:k prism:k petersen cycle:k brick:a:b subgrid:a:b subcube:d
 inline EdgeList family(const std::string &spec) {
     std::vector<std::string> t; { std::string c; for (char ch : spec) { if (ch == ':') { t.push_back(c); c.clear(); } else c += ch; } t.push_back(c); }
     auto I = [&](size_t i) { return i < t.size() ? atoi(t[i].c_str()) : 0; };
@@ -129,6 +129,13 @@ inline EdgeList family(const std::string &spec) {
     if (t[0] == "cube") return hypercube(I(1));
     if (t[0] == "K") return complete(I(1));
     if (t[0] == "Kb") return complete_bipartite(I(1), I(2));
+    if (t[0] == "Kp" || t[0] == "pK") {   // Kp:n:p - K_n with p pendant vertices numbered last (pK: numbered first); a dense core whose support
+                                          // vectors grow past |V| entries, next to vertices that lie on no cycle at all
+        int n = I(1), p = std::max(1, I(2)); EdgeList g; g.n = n + p; int off = t[0] == "pK" ? p : 0;
+        for (int i = 0; i < n; ++i) for (int j = i + 1; j < n; ++j) g.e.push_back({off + i, off + j});
+        for (int i = 0; i < p; ++i) { int pend = t[0] == "pK" ? i : n + i, at = off + (i % n); g.e.push_back({std::min(pend, at), std::max(pend, at)}); }
+        return g;
+    }
     if (t[0] == "wheel") return wheel(I(1));
     if (t[0] == "prism") return prism(I(1));
     if (t[0] == "petersen") return petersen();
